@@ -140,7 +140,9 @@ def propose (s : GenSt) (p : Prof) : Rng × List Op :=
   else (rng, [.keys])
 
 def GenSt.emit (s : GenSt) (op : Op) : GenSt :=
-  { s with lines := s.lines.push (opLine s.h op), r := (R.step s.cap s.r op).1 }
+  let r' := (R.step s.cap s.r op).1
+  let r' := if s.lines.size % 24 = 23 then compactR s.cap r' else r'
+  { s with lines := s.lines.push (opLine s.h op), r := r' }
 
 /-- emit a list of calls if every one of them is valid in sequence; returns `none` otherwise -/
 def GenSt.tryOps (s : GenSt) (ops : List Op) : Option GenSt :=
